@@ -19,6 +19,7 @@ from typing import Any
 import falcon
 
 from .._common import (
+    _ARROW_CONTENT_TYPE,
     _ERROR_PAGE_STYLE,
     _FONT_IMPORTS,
     _VGI_LOGO_HTML,
@@ -26,6 +27,7 @@ from .._common import (
     AUTH_REASON_HEADER,
 )
 from .._unauthorized import AuthReason
+from ._responses import _error_response_stream
 
 _NOT_FOUND_HTML_TEMPLATE = (
     """\
@@ -173,6 +175,15 @@ def _make_error_serializer(proxy_hint: str = "") -> Callable[[falcon.Request, fa
     def _serialize(req: falcon.Request, resp: falcon.Response, exc: falcon.HTTPError) -> None:
         """Serialize one Falcon error onto the response."""
         if not isinstance(exc, falcon.HTTPUnauthorized):
+            if isinstance(exc, (falcon.HTTPBadRequest, falcon.HTTPContentTooLarge)):
+                # WIRE_PROTOCOL "HTTP status code mapping": a 400 or 413 still
+                # carries an Arrow IPC error stream.  These are raised by the
+                # request-size and decompression middlewares, before any
+                # resource could build one.
+                detail = f"{exc.title}: {exc.description}" if exc.description else str(exc.title)
+                resp.content_type = _ARROW_CONTENT_TYPE
+                resp.data = _error_response_stream(RuntimeError(detail)).getvalue()
+                return
             resp.content_type = falcon.MEDIA_JSON
             resp.data = exc.to_json()
             return
